@@ -1518,6 +1518,47 @@ def sort(a, axis=-1, **k):
 np.sort = sort
 
 
+def _argext(which):
+    real = getattr(rnp, which)
+    better = _cmp('gt') if which == 'argmax' else _cmp('lt')
+
+    def f(a, axis=None, **k):
+        if is_sym(a):
+            A = to_sarr(a)
+            if axis is not None and A.ndim != 1:
+                raise SymxUnsupported(f'{which} along an axis of a symbolic n-d array')
+            flat = list(A.ravel())
+            best = 0
+            for i in range(1, len(flat)):
+                r = better(flat[i], flat[best])
+                if bool(r):                     # forks on symbolic comparisons (first occurrence wins, as in numpy)
+                    best = i
+            return best
+        return real(a, axis=axis, **k)
+    return f
+
+
+np.flatnonzero = lambda a: nonzero(to_sarr(a).ravel())[0] if is_sym(a) else rnp.flatnonzero(a)
+
+
+def cumsum(a, axis=None, **k):
+    if is_sym(a):
+        A = to_sarr(a)
+        if A.ndim != 1 and axis is not None:
+            raise SymxUnsupported('cumsum along an axis of a symbolic n-d array')
+        out, acc = [], 0
+        for v in A.ravel():
+            acc = acc + v
+            out.append(acc)
+        return to_sarr(out, A.ldtype)
+    return rnp.cumsum(a, axis=axis, **k)
+
+
+np.cumsum = cumsum
+np.argmax = _argext('argmax')
+np.argmin = _argext('argmin')
+
+
 def putmask(a, mask, values):
     if is_sym(a) or is_sym(mask) or is_sym(values):
         a[...] = where(mask, values, a)
